@@ -2,7 +2,7 @@ from engines.doc_engine import DocEngine
 
 SPEC = {
     "engine": DocEngine,
-    "quick_runs": 900,
+    "quick_runs": 2400,
     "quick_budget_s": 75,
     "thorough_budget_s": 900,
     "chunk": 15,
